@@ -452,7 +452,11 @@ fn case_json(mode: &str, init: usize, ops: &[GOp]) -> J {
 
 fn record(rep: &mut Report, which: &'static str, mode: &str, seed: u64, case: u64, init: usize, ops: &[GOp]) {
   let mut st = SeqStats::default();
-  let res = run_sequence(init, ops, mode != "exhaustive", &mut st);
+  // a panic inside the DAG (e.g. an unwrap on a node that a stale scratch buffer still refers to) is a wrong answer
+  let res = match crate::util::catch(|| { let mut st2 = SeqStats::default(); let r = run_sequence(init, ops, mode != "exhaustive", &mut st2); (r, st2) }) {
+    Ok((r, st2)) => { st = st2; r }
+    Err(msg) => Err((which, format!("the DAG panicked: {}", msg), ops.len().saturating_sub(1))),
+  };
   rep.evaluations += 1;
   rep.add("ops", st.ops);
   rep.add("add_edge_reorders", st.reorders);
